@@ -54,98 +54,54 @@ impl RefIndex {
         line.ref_keys(&graph.node_key(node_id).parent())
     }
 
+    // the node and everything after and below it: siblings in a loop (a note can have tens of
+    // thousands of blocks in a row), children by recursion
     pub fn index_node(&mut self, graph: &Graph, node_id: NodeId) {
-        match graph.graph_node(node_id) {
-            GraphNode::Reference(reference) => {
-                self.block_references
-                    .entry(reference.key().clone())
-                    .or_insert_with(HashSet::new)
-                    .insert(reference.id());
-
-                reference.next_id().map(|child_id| {
-                    self.index_node(graph, child_id);
-                });
+        let mut current = Some(node_id);
+        while let Some(node_id) = current {
+            let node = graph.graph_node(node_id);
+            if let GraphNode::Empty = node {
+                break;
             }
-            GraphNode::Section(section) => {
-                for key in Self::line_ref_keys(graph, section.id(), section.line_id()) {
-                    self.inline_references
-                        .entry(key.clone())
+            match &node {
+                GraphNode::Reference(reference) => {
+                    self.block_references
+                        .entry(reference.key().clone())
                         .or_insert_with(HashSet::new)
-                        .insert(section.id());
+                        .insert(reference.id());
                 }
-                section.child_id().map(|child_id| {
-                    self.index_node(graph, child_id);
-                });
-
-                section.next_id().map(|child_id| {
-                    self.index_node(graph, child_id);
-                });
-            }
-            GraphNode::Leaf(leaf) => {
-                for key in Self::line_ref_keys(graph, leaf.id(), leaf.line_id()) {
-                    self.inline_references
-                        .entry(key.clone())
-                        .or_insert_with(HashSet::new)
-                        .insert(leaf.id());
-                }
-
-                leaf.next_id().map(|child_id| {
-                    self.index_node(graph, child_id);
-                });
-            }
-            GraphNode::Document(document) => {
-                document.child_id().map(|child_id| {
-                    self.index_node(graph, child_id);
-                });
-            }
-            GraphNode::Quote(quote) => {
-                quote.child_id().map(|child_id| {
-                    self.index_node(graph, child_id);
-                });
-                quote.next_id().map(|child_id| {
-                    self.index_node(graph, child_id);
-                });
-            }
-            GraphNode::BulletList(bullet_list) => {
-                bullet_list.child_id().map(|child_id| {
-                    self.index_node(graph, child_id);
-                });
-                bullet_list.next_id().map(|child_id| {
-                    self.index_node(graph, child_id);
-                });
-            }
-            GraphNode::OrderedList(ordered_list) => {
-                ordered_list.child_id().map(|child_id| {
-                    self.index_node(graph, child_id);
-                });
-                ordered_list.next_id().map(|child_id| {
-                    self.index_node(graph, child_id);
-                });
-            }
-            GraphNode::Empty => {}
-            GraphNode::Raw(raw_leaf) => {
-                raw_leaf.next_id().map(|child_id| {
-                    self.index_node(graph, child_id);
-                });
-            }
-            GraphNode::HorizontalRule(horizontal_rule) => {
-                horizontal_rule.next_id().map(|child_id| {
-                    self.index_node(graph, child_id);
-                });
-            }
-            GraphNode::Table(table) => {
-                for line_id in table.header().iter().chain(table.rows().iter().flatten()) {
-                    for key in Self::line_ref_keys(graph, table.id(), *line_id) {
+                GraphNode::Section(section) => {
+                    for key in Self::line_ref_keys(graph, section.id(), section.line_id()) {
                         self.inline_references
                             .entry(key.clone())
                             .or_insert_with(HashSet::new)
-                            .insert(table.id());
+                            .insert(section.id());
                     }
                 }
-                table.next_id().map(|child_id| {
-                    self.index_node(graph, child_id);
-                });
+                GraphNode::Leaf(leaf) => {
+                    for key in Self::line_ref_keys(graph, leaf.id(), leaf.line_id()) {
+                        self.inline_references
+                            .entry(key.clone())
+                            .or_insert_with(HashSet::new)
+                            .insert(leaf.id());
+                    }
+                }
+                GraphNode::Table(table) => {
+                    for line_id in table.header().iter().chain(table.rows().iter().flatten()) {
+                        for key in Self::line_ref_keys(graph, table.id(), *line_id) {
+                            self.inline_references
+                                .entry(key.clone())
+                                .or_insert_with(HashSet::new)
+                                .insert(table.id());
+                        }
+                    }
+                }
+                _ => {}
             }
+            if let Some(child_id) = node.child_id() {
+                self.index_node(graph, child_id);
+            }
+            current = node.next_id();
         }
     }
 }
